@@ -7,7 +7,7 @@ import hashlib
 from hypothesis import strategies as st
 
 from vlib import certs, memnet, stacks, vloop
-from vlib.core import Lane, ok, viol
+from vlib.core import Lane, grey, ok, viol
 from vlib.nlog import setup_logging
 
 LEVEL = "exploration"
@@ -147,6 +147,12 @@ def run_mem(case: dict):
         streams[backend] = got
         infos[backend] = {"len": len(got), "close_notify": conn.client.got_close_notify, "fin": conn.server_closed,
                           "after_fin": conn.tx_after_fin}
+        if got == b"" and case["reader"].startswith("halfclose"):
+            # the client announced the end of its own data before the answer was on its way. A server whose handler runs a
+            # moment later (middleware chain, async handler, deferred dispatch) finds the session shut down by then - under
+            # TLS 1.2 a close_notify must be answered at once and pending writes discarded, and asyncio's TLS transport
+            # does the same for 1.3. Nothing delivered is then not the server's doing; a partial or altered answer would be
+            return grey("peer-closed-its-side-before-the-answer", backend=backend, **infos[backend])
         if got != want:
             i = next((k for k in range(min(len(got), len(want))) if got[k] != want[k]), min(len(got), len(want)))
             return viol("stream-differs", f"{backend}: expected {len(want)} bytes, got {len(got)}; first difference at {i}",
